@@ -1,8 +1,8 @@
 package main
 
 import (
-	"errors"
 	"encoding/json"
+	"errors"
 	"fmt"
 	"strings"
 	"sync"
@@ -33,7 +33,7 @@ type c02Replay struct {
 }
 
 // c02Kinds: Go values whose text (what fmt prints after the sanitizers' dereferencing) is the untrusted string.
-var c02Kinds = []string{"ptr", "ptrptr", "stringer", "stringer-ptr", "error", "named-string", "iface-in-struct-field"}
+var c02Kinds = append([]string{"ptr", "ptrptr", "stringer", "stringer-ptr", "error", "named-string", "iface-in-struct-field"}, numericKinds...)
 
 type c02Stringer struct{ s string }
 
@@ -46,6 +46,9 @@ func (v *c02PtrStringer) String() string { return v.s }
 type c02Named string
 
 func c02Wrap(kind, s string) interface{} {
+	if v, ok := bindNumeric(kind, s); ok {
+		return v
+	}
 	switch kind {
 	case "ptr":
 		return &s
@@ -441,6 +444,11 @@ func checkC02(r *core.Run) {
 						parts[i] = m
 					}
 					try(parts, c, w)
+					if nparts == 1 {
+						for _, kd := range c02Kinds {
+							tryKind(parts, c, w, kd)
+						}
+					}
 					if nparts > 1 {
 						parts2 := make([]string, nparts)
 						parts2[nparts-1] = m
@@ -451,10 +459,8 @@ func checkC02(r *core.Run) {
 					switch nparts {
 					case 1:
 						try([]string{dz}, c, w)
-						if class == "" || strings.HasPrefix(class, "single-action") {
-							for _, kd := range c02Kinds {
-								tryKind([]string{dz}, c, w, kd)
-							}
+						for _, kd := range c02Kinds {
+							tryKind([]string{dz}, c, w, kd)
 						}
 						// the static prefix may supply the beginning
 						for i := 1; i < len(dz) && i <= 10; i++ {
